@@ -369,7 +369,7 @@ def graph_check(tier: str, stats: Stats) -> list[Violation]:
     return list(viols.values())
 
 
-def sharing_check(tier: str, stats: Stats) -> list[Violation]:
+def sharing_check(tier: str, stats: Stats, prop: str = 'C16', only: tuple[str, ...] | None = None) -> list[Violation]:
     """ONE storage instance serves all objects of an operator, for the life of the process: what it writes for an object, under which names,
     and what it reads back must not depend on which objects it served before (a plain object, a ReplicaSet owned by a Deployment - whose
     records kopf keeps under names of their own). Differential oracle: every operation of every sequence of <= 3 (4) operations over both
@@ -377,7 +377,7 @@ def sharing_check(tier: str, stats: Stats) -> list[Violation]:
     viols: dict[str, Violation] = {}
 
     def add(kind: str, msg: str, **sig: Any) -> None:
-        v = Violation('C16', kind, msg, dict(kind=kind, **sig), scenario='sharing', labels=None)  # type: ignore[arg-type]
+        v = Violation(prop, kind, msg, dict(kind=kind, **sig), scenario='sharing', labels=None)  # type: ignore[arg-type]
         viols.setdefault(v.key(), v)
 
     depth = 3 if tier == 'quick' else 4
@@ -404,12 +404,19 @@ def sharing_check(tier: str, stats: Stats) -> list[Violation]:
             cfg.prog.touch(body=body, patch=patch, value='t1')
         return json.loads(json.dumps(out, default=repr)), json.loads(json.dumps(dict(patch), default=repr))
 
-    whats = ['base-store', 'base-fetch', 'base-build', 'prog-store', 'prog-fetch', 'prog-purge', 'touch']
+    whats = [w for w in ['base-store', 'base-fetch', 'base-build', 'prog-store', 'prog-fetch', 'prog-purge', 'touch'] if only is None or w in only]
     names = [c.name for c in configs()]
     for ci, cname in enumerate(names):
         # the objects as they look once both storages have written to them (by fresh instances): there is something to fetch and to purge
         stocked: dict[str, dict] = {}
-        for fname, raw0 in flavours().items():
+        flavs = flavours()
+        # ... and an object on which ANOTHER Kopf-based operator (prefix ops.example.com) has left its marker and a record, while the plain
+        # object carries an ordinary annotation of its user under that very prefix (no marker there: it is user data and essential)
+        flavs['plain']['metadata']['annotations']['ops.example.com/owner'] = 'team-a'
+        flavs['marked-by-another-operator'] = copy.deepcopy(flavs['plain'])
+        flavs['marked-by-another-operator']['metadata']['annotations'].update({'ops.example.com/kopf-managed': 'yes', 'ops.example.com/h1': '{"retries": 1}'})
+        flavs['marked-by-another-operator']['metadata']['uid'] = 'u2'
+        for fname, raw0 in flavs.items():
             fresh = configs()[ci]
             raw = copy.deepcopy(raw0)
             for w in ('base-store', 'prog-store'):
